@@ -61,6 +61,8 @@ mod parser;
 pub mod process;
 pub mod rules;
 mod utils;
+#[cfg(feature = "verif-hooks")]
+pub mod verif_hooks;
 
 pub use frontend::{
     convert_data, process, BundleConfiguration, Configuration, DarkluaError, GeneratorParameters,
